@@ -53,6 +53,12 @@ func newEmitEngine(c *Ctx) *emitEngine {
 			se.primitive[f] = true
 		}
 	}
+	// the assembler and the stack-depth walk are not part of the emission scheme
+	if it := c.Named("compile", "Instructions"); it != nil {
+		for i := 0; i < it.NumMethods(); i++ {
+			se.primitive[it.Method(i)] = true
+		}
+	}
 	for _, n := range []string{"Push", "Pop", "Top"} {
 		if f := c.Method("compile", "loopstack", n); f != nil {
 			se.primitive[f] = true
